@@ -326,6 +326,13 @@ def main(argv):
             except ToolError as e:
                 log("TOOL-ERROR", e)
                 return 2
+        elif a == "--selftest":
+            import selftest
+            try:
+                return selftest.main()
+            except ToolError as e:
+                log("TOOL-ERROR", e)
+                return 2
         elif a == "--tier":
             tier = argv[i + 1]
             i += 1
